@@ -68,6 +68,7 @@ type genOpts struct {
 
 var nextAddr int
 
+//go:norace
 func genBackend(tp *simrt.Tape, o genOpts, ci, si, bi int) *mBackend {
 	w := tp.Range(1, o.maxWeight, "b.weight")
 	if o.zeroWeights && tp.Chance(1, 8, "b.zero") {
@@ -77,6 +78,7 @@ func genBackend(tp *simrt.Tape, o genOpts, ci, si, bi int) *mBackend {
 	return &mBackend{Name: fmt.Sprintf("c%ds%db%d-%d", ci, si, bi, nextAddr), Addr: fmt.Sprintf("10.%d.%d.%d", ci, si, 1+nextAddr%250), Port: 8000 + nextAddr%50, Weight: w, Up: true}
 }
 
+//go:norace
 func genTopo(tp *simrt.Tape, o genOpts) *topo {
 	nextAddr = 0
 	t := &topo{conf: map[string]*gconf{}}
